@@ -17,6 +17,7 @@ import operator
 import numpy as np
 
 from ..engines import history
+from ..runner import Acc, my_share
 from ..models import units as M2
 from . import _arr
 
@@ -188,13 +189,13 @@ class Spec:
             if isinstance(obj, osyris.Array):
                 ids.setdefault(id(obj), len(ids))
                 mems.append((path, obj._array))
-                return ["A", ids[id(obj)], str(obj.unit), str(obj.dtype), np.asarray(obj._array).tolist()]
+                return ["A", ids[id(obj)], str(obj.unit), str(obj.dtype), np.asarray(obj._array).tolist(), history.hidden_state(obj, ("_array", "_unit", "name"))]
             if isinstance(obj, osyris.Vector):
                 ids.setdefault(id(obj), len(ids))
-                return ["V", ids[id(obj)], [d(c, path + "." + n) for n, c in obj._xyz.items()]]
+                return ["V", ids[id(obj)], [d(c, path + "." + n) for n, c in obj._xyz.items()], history.hidden_state(obj, ("x", "y", "z", "_name"))]
             if isinstance(obj, osyris.Datagroup):
                 ids.setdefault(id(obj), len(ids))
-                return ["G", ids[id(obj)], [[k, d(v, path + f"[{k}]")] for k, v in obj.items()]]
+                return ["G", ids[id(obj)], [[k, d(v, path + f"[{k}]")] for k, v in obj.items()], history.hidden_state(obj, ("_container", "name", "parent"))]
             if isinstance(obj, osyris.Dataset):
                 ids.setdefault(id(obj), len(ids))
                 return ["D", ids[id(obj)], [[k, d(v, path + f"[{k}]")] for k, v in obj.items()]]
@@ -515,6 +516,155 @@ def make_spec(name, params):
     return Spec(params)
 
 
+# ------------------------------------------------------------------ views of 1-, 2- and 3-dimensional members
+# Differential model: plain ndarrays going through the same indexing and in-place updates. numpy's own rules say which index
+# expressions give views (basic slices) and which give copies (index arrays, masks); the Array wrappers must behave alike.
+
+VIEW_SHAPES = {"4": (4,), "3x4": (3, 4), "2x3x2": (2, 3, 2), "1x4": (1, 4), "4x1": (4, 1)}
+VIEW_INDEX = {
+    "4": ["[1:3]", "[::2]", "[::-1]", "[2:]", "[-2:]", "[[0, 2]]", "[mask]", "[1:2]"],
+    "3x4": ["[:, 1:3]", "[:, 2:3]", "[::2]", "[:, ::-1]", "[1:]", "[1:, :2]", "[..., 0]", "[0]", "[:, 0]", "[::-1, ::2]", "[[0, 2]]", "[mask]", "[1]", "[:, 1::2]"],
+    "2x3x2": ["[:, 1:]", "[..., 1]", "[1]", "[:, :, ::-1]", "[:, ::2, :1]", "[0, 1:]"],
+    "1x4": ["[:, 1:3]", "[0]", "[:, ::2]"],
+    "4x1": ["[1:3]", "[:, 0]", "[::2]"],
+}
+VIEW_UPDATES = ["orig*=2", "view*=2", "orig+=Q", "view+=Q", "orig-=A", "view/=2", "orig*=s", "view2*=2"]
+
+
+def _index(expr, shape):
+    mask = np.zeros(shape[0], dtype=bool)
+    mask[::2] = True
+    return eval("np.s_" + expr.replace("mask", "M"), {"np": np, "M": mask})
+
+
+def views_cases(thorough):
+    for sh, exprs in VIEW_INDEX.items():
+        for expr in exprs:
+            for holder in ("Array", "Datagroup", "Vector"):
+                if holder == "Datagroup" and expr.startswith("[...") :
+                    continue
+                for dt in (("f8", "f4") if (thorough or sh == "3x4") else ("f8",)):
+                    for u1 in VIEW_UPDATES:
+                        yield {"block": "views", "shape": sh, "index": expr, "holder": holder, "dt": dt, "updates": [u1]}
+                        for u2 in (VIEW_UPDATES if thorough else VIEW_UPDATES[:4]):
+                            if u1.endswith("*=s"):
+                                continue  # a unit-changing update comes last (a later += in the old unit is rightly refused)
+                            yield {"block": "views", "shape": sh, "index": expr, "holder": holder, "dt": dt, "updates": [u1, u2]}
+
+
+def run_views(acc, idx, c):
+    import osyris
+
+    A_, V_ = osyris.Array, osyris.Vector
+    shape = VIEW_SHAPES[c["shape"]]
+    dt = _arr.DTYPES[c["dt"]]
+    ind = _index(c["index"], shape)
+    n = int(np.prod(shape))
+    base = (np.arange(n, dtype=np.float64) + 1.0).reshape(shape)
+    ncomp = 2 if c["holder"] == "Vector" else 1
+    refs = [(base * (k + 1)).astype(dt) for k in range(ncomp)]
+    comps = [A_(r.copy(), unit="m") for r in refs]
+    if c["holder"] == "Array":
+        orig = comps[0]
+        view = orig[ind]
+        o_arrs, v_arrs = [orig], [view]
+    elif c["holder"] == "Vector":
+        orig = V_(*comps)
+        view = orig[ind]
+        o_arrs, v_arrs = list(orig._xyz.values()), list(view._xyz.values())
+    else:
+        g = osyris.Datagroup()
+        g["a"] = comps[0]
+        g2 = osyris.Datagroup()
+        g2["b"] = comps[0]  # the same Array also stored in another group
+        sub = g[ind]
+        orig, view = g["a"], sub["a"]
+        o_arrs, v_arrs = [g2["b"]], [view]
+    try:
+        rviews = [r[ind] for r in refs]
+    except IndexError:
+        return "skipped-invalid-index", False
+    if any(np.ndim(rv) == 0 for rv in rviews):
+        return "skipped-0d-result", False
+    if len(v_arrs) != len(rviews) or any(np.shape(v._array) != rv.shape for v, rv in zip(v_arrs, rviews)):
+        acc.violation("C17:views:shape-of-indexed-result", idx, c, {"got": [list(np.shape(v._array)) for v in v_arrs], "expected": [list(rv.shape) for rv in rviews]})
+        return "violation", True
+    view2 = rview2 = None
+    Q = 50.0 * osyris.units("cm")  # = 0.5 m
+    for k, up in enumerate(c["updates"]):
+        target, opn = up[: up.index("=") - 1], up[up.index("=") - 1:]
+        if target == "view2":
+            # a view of the view
+            try:
+                view2 = view[0:1] if view2 is None else view2
+                rview2 = [rv[0:1] for rv in rviews] if rview2 is None else rview2
+            except Exception as e:
+                acc.violation(f"C17:views:indexing-a-view-raised:{type(e).__name__}", idx, c, {})
+                return "violation", True
+        tobj = {"orig": orig, "view": view, "view2": view2}[target]
+        trefs = {"orig": refs, "view": rviews, "view2": rview2}[target]
+        try:
+            with np.errstate(all="ignore"):
+                if opn == "*=2":
+                    tobj *= 2.0
+                    for r in trefs:
+                        r *= dt(2.0)
+                elif opn == "/=2":
+                    tobj /= 2.0
+                    for r in trefs:
+                        r /= dt(2.0)
+                elif opn == "+=Q":
+                    tobj += Q
+                    for r in trefs:
+                        r += dt(0.5)
+                elif opn == "-=A":
+                    sh_t = np.shape(trefs[0])
+                    tobj -= A_(np.full(sh_t, 25.0), unit="cm")
+                    for r in trefs:
+                        r -= dt(0.25)
+                elif opn == "*=s":
+                    # unit-changing update: raw numbers double, the unit of the target becomes m*s
+                    tobj *= A_(np.array(2.0), unit="s")
+                    for r in trefs:
+                        r *= dt(2.0)
+        except Exception as e:
+            acc.violation(f"C17:views:in-place-update-raised:{type(e).__name__}", idx, c, {"update": up, "step": k})
+            return "violation", True
+        if target == "orig" and c["holder"] == "Vector":
+            # v op= q rebinds the name to a Vector whose components wrap the same data
+            o_arrs = list(tobj._xyz.values())
+            orig = tobj
+        if target == "view" and c["holder"] == "Vector":
+            v_arrs = list(tobj._xyz.values())
+            view = tobj
+        if target == "view2" and c["holder"] == "Vector":
+            view2 = tobj
+        for which, live, ref in (("original", o_arrs, refs), ("view", v_arrs, rviews)):
+            for L, R in zip(live, ref):
+                if np.shape(L._array) != R.shape or not np.allclose(np.asarray(L._array, dtype=np.float64), R.astype(np.float64), rtol=2e-6 if dt == np.float32 else 1e-13, atol=0):
+                    kind = "view" if np.shares_memory(R, refs[0]) or np.shares_memory(R, refs[-1]) else "copy"
+                    acc.violation(f"C17:views:{which}-differs-from-numpy-semantics:after-update-of-{target}:numpy-{kind}", idx, c,
+                                  {"step": k, "update": up, "got": np.asarray(L._array).ravel()[:6].tolist(), "expected": R.ravel()[:6].tolist()})
+                    return "violation", True
+    shares = bool(np.shares_memory(rviews[0], refs[0]))
+    live_shares = bool(np.shares_memory(v_arrs[0]._array, o_arrs[0]._array))
+    if shares != live_shares:
+        acc.violation("C17:views:" + ("numpy-view-is-a-copy" if shares else "numpy-copy-shares-memory"), idx, c, {})
+        return "violation", True
+    return "ok", True
+
+
+def views_work(payload):
+    acc = Acc()
+    thorough = payload["tier"] == "thorough"
+    for idx, c in my_share(views_cases(thorough), payload):
+        out, nontrivial = run_views(acc, idx, c)
+        acc.case(nontrivial=nontrivial, outcome=out)
+        if idx % 2003 == 0:
+            acc.sample(c)
+    return acc
+
+
 def ops_for(thorough):
     ops = [["store", "A0", "G0", "a"], ["store", "A0", "G1", "a"], ["store", "V0", "G0", "v"], ["store", "X", "G1", "x"],
            ["store_group", "G0", "g"]]
@@ -558,8 +708,11 @@ def run(ctx):
         cov, acc = history.explore(ctx.pool, MOD, "heap", {"ops": ops_for(True), "dtype": "f8"}, 3, 2)
         covs.append(cov)
         accs.append(acc)
-    acc = Acc.merged(accs)
+    av = Acc.merged(ctx.pool.shards(MOD, "views_work", ctx.base()))
+    acc = Acc.merged(accs + [av])
     cov = {
+        "views_cases": av.evaluations,
+        "views_outcomes": dict(av.outcomes),
         "states": sum(c["states"] for c in covs),
         "transitions": sum(c["transitions"] for c in covs),
         "traces_validated_against_impl": sum(c["transitions"] for c in covs),
@@ -578,4 +731,8 @@ def run(ctx):
 
 
 def replay_sigs(case):
+    if case.get("block") == "views":
+        acc = Acc()
+        run_views(acc, 0, case)
+        return list(acc.violations.keys())
     return [s for s, _ in history.replay_case(case)]
